@@ -307,6 +307,31 @@ def r_jigg(repo, rep, R='R15.2'):
               '%s:%s build_ccg_tree' % (CT, bt.lineno), 'jigg:ccg2lambda-attrs',
               'ccg2lambda\'s tree builder reads root / child / id, all of which the writer sets', 'build_ccg_tree reads %s; writer sets ccg %s span %s' % (sorted(breads), sorted(ccg_attrs), sorted(span_attrs)))
     rep.check('rule' in span_attrs and 'category' in span_attrs, R, w, 'jigg:rule-category', 'inner spans carry rule and category for the templates', 'span attributes are %s' % sorted(span_attrs))
+    # `rule` is what tells a rule node from a word for ccg2lambda (a span with a rule is matched against the rule templates, never
+    # against the lexical ones): it is written on exactly the spans that have children
+    n_leaf = n_inner = 0
+    wrong = []
+    from ..core import enclosing_function as _encl
+    for f_ in [n_ for n_ in ast.walk(proc) if isinstance(n_, ast.FunctionDef) and n_ is not proc] + [proc]:
+        if not any(isinstance(c_, ast.Call) and isinstance(c_.func, ast.Attribute) and c_.func.attr == 'set' and c_.args and isinstance(c_.args[0], ast.Constant)
+                   and c_.args[0].value == 'terminal' and _encl(c_) is f_ for c_ in ast.walk(f_)):
+            continue
+        for st_, o_ in SymExec(f_, unroll=1).run():
+            if o_ == 'raise':
+                continue
+            names = [e_[1][2][0][1] for e_ in st_.events if e_[0] == 'call' and e_[1][1][0] == 'attr' and e_[1][1][2] == 'set' and len(e_[1][2]) == 2 and e_[1][2][0][0] == 'const']
+            if 'terminal' in names:
+                n_leaf += 1
+                if 'rule' in names:
+                    wrong.append('a leaf span (terminal=..) is given a rule attribute')
+            elif 'child' in names:
+                n_inner += 1
+                if 'rule' not in names:
+                    wrong.append('an inner span (child=..) is written without its rule')
+        break
+    if n_leaf and n_inner:
+        rep.check(not wrong, R, w, 'jigg:rule-on-inner-spans-only', 'rule is written on the spans that have children and on no leaf span (%d + %d paths)' % (n_inner, n_leaf),
+                  '%s: ccg2lambda takes a span with a `rule` for a rule node, so no lexical template matches the words (and a rule node without it is taken for a word)' % sorted(set(wrong))[0] if wrong else '')
     # id templates, read off the values the writer hands to set('terminal', ..) / set('id', ..) with helpers inlined
     def set_values(fn, attr, recv_has=None, **kw):
         out = []
